@@ -165,7 +165,9 @@ type durAlt struct {
 }
 
 var durAlts = []durAlt{{"1h", time.Hour}, {"0s", 0}, {"90m", 90 * time.Minute}, {"1h30m", 90 * time.Minute}, {"1500ms", 1500 * time.Millisecond},
-	{"1ns", 1}, {"1u", time.Microsecond}, {"1µ", time.Microsecond}, {"2w", 14 * 24 * time.Hour}, {"106751d", 106751 * 24 * time.Hour}, {"10m", 10 * time.Minute}, {"2562024h", 106751 * 24 * time.Hour}, {"9223372036s", 9223372036 * time.Second}}
+	{"1ns", 1}, {"1u", time.Microsecond}, {"1µ", time.Microsecond}, {"2w", 14 * 24 * time.Hour}, {"106751d", 106751 * 24 * time.Hour}, {"10m", 10 * time.Minute}, {"2562024h", 106751 * 24 * time.Hour}, {"9223372036s", 9223372036 * time.Second},
+	// several components: the micro sign in a later one, and more than two
+	{"1ms500µ", 1500 * time.Microsecond}, {"1h30m15s", 5415 * time.Second}, {"2s10µ5ns", 2*time.Second + 10*time.Microsecond + 5}}
 
 func durByText(t string) time.Duration {
 	for _, d := range durAlts {
